@@ -466,8 +466,62 @@ def credentials(ctx, seed):
     return fails
 
 
+def preauth(ctx, seed):
+    """A peer that completed IKE_SA_INIT (so keys exist) but never authenticates: whatever exchange it sends instead
+    of IKE_AUTH, nothing may be installed and the IKE_SA must not become established - on either role."""
+    from ikesa import IkeSa
+    from message import Message, PayloadNONCE, PayloadDELETE, Proposal
+    fails = []
+    for variant in ('create_child', 'informational_empty', 'informational_delete_child', 'rekey_ike',
+                    'response_create_child', 'response_informational'):
+        with ConfPair(seed, {}, lambda a, b: None) as p:
+            try:
+                p.do(['acquire', 'A', 80])
+                p.do(['deliver', 0])          # IKE_SA_INIT request -> B
+                p.do(['deliver', 0])          # IKE_SA_INIT response -> A (A answers with IKE_AUTH)
+                auth_req = p.sim.net.pop(0)   # the IKE_AUTH request is withheld
+                sa = p.A.controller.ike_sas[0]
+                sb = p.B.controller.ike_sas[0]
+                with p.sim.as_current(p.A):
+                    if variant in ('create_child', 'response_create_child'):
+                        pl = sa._generate_child_sa_negotiation_req(sa.creating_child_sa) + [PayloadNONCE()]
+                        exch = Message.Exchange.CREATE_CHILD_SA
+                    elif variant in ('informational_empty', 'response_informational'):
+                        pl, exch = [], Message.Exchange.INFORMATIONAL
+                    elif variant == 'informational_delete_child':
+                        pl, exch = [PayloadDELETE(Proposal.Protocol.ESP, [b'abcd'])], Message.Exchange.INFORMATIONAL
+                    else:
+                        new = IkeSa(True, b'', sa.configuration, sa.my_addr, sa.peer_addr)
+                        pl, exch = new._generate_ike_sa_negotiation_request(), Message.Exchange.CREATE_CHILD_SA
+                    if variant.startswith('response_'):
+                        # sent by the unauthenticated RESPONDER to the initiator waiting in AUTH_REQ_SENT
+                        with p.sim.as_current(p.B):
+                            m = sb.generate_response(exch, pl)
+                            m.message_id = sa.my_msg_id
+                        target, src, dst = p.A, '192.168.0.2', '192.168.0.1'
+                    else:
+                        m = sa.generate_request(exch, pl)
+                        target, src, dst = p.B, '192.168.0.1', '192.168.0.2'
+                    data = bytes(m.to_bytes())
+                n0 = sum(1 for r in target.kernel.requests if r[2] and r[2][0] == 'NEWSA')
+                target.datagram(dst, src, data)
+                ctx.case({'preauth': variant}, nontrivial=True)
+                ctx.count('preauth:' + variant)
+                n1 = sum(1 for r in target.kernel.requests if r[2] and r[2][0] == 'NEWSA')
+                states = [int(x.state) for x in target.controller.ike_sas]
+                if n1 != n0 or any(10 <= st < 21 for st in states):
+                    fails.append(Failure('property', 'auth:effect-before-authentication',
+                                         f'{variant} sent instead of IKE_AUTH by a peer that never authenticated: '
+                                         f'{n1 - n0} NEWSA, IKE_SA states {states}', {'preauth': variant, 'seed': seed}))
+            except LoopEscape as ex:
+                fails.append(Failure('property', 'loop:escaped-exception', repr(ex.exc), {'preauth': variant,
+                                                                                          'seed': seed}))
+    return fails
+
+
 def oracle(ctx, deep):
     fails = []
+    fails += preauth(ctx, ctx.rng.getrandbits(32))
     for prf_name in ('sha256', 'sha1', 'sha512'):
         fails += recompute_auth(ctx, ctx.rng.getrandbits(32), prf_name, False)
     fails += recompute_auth(ctx, ctx.rng.getrandbits(32), 'sha256', True)
@@ -484,6 +538,8 @@ def replay(ctx, obj):
         return recompute_auth(ctx, obj['seed'], obj['recompute'], obj['rsa'])
     if 'situation' in obj:
         return [f for f in credentials(ctx, obj['seed']) if f.replay.get('situation') == obj['situation']]
+    if 'preauth' in obj:
+        return [f for f in preauth(ctx, obj['seed']) if f.replay.get('preauth') == obj['preauth']]
     if 'mitm' in obj:
         return [f for f in mitm(ctx, obj['seed'], True) if f.replay.get('mitm') == obj['mitm']]
     return []
